@@ -43,20 +43,37 @@ theorem lookupLastP_mem {k : Text} {l : List (Text × List Piece)} {v : List Pie
 theorem flatten_userPiece (f : Form) (raw : Text) : flattenPieces [userPiece f raw] = escapeOf f raw := by
   simp [flattenPieces, userPiece]
 
-theorem htmlCommentP_flatten (f : Form) (c : Text) : flattenPieces (htmlCommentP f c) = htmlCommentOf f c := by
+theorem flatten_valPiece (f : Form) (raw : Text) (html : Option Text) :
+    flattenPieces [valPiece f raw html] = escVal f raw html := by
+  cases f <;> cases html <;> simp [flattenPieces, valPiece, userPiece, escVal]
+
+theorem htmlCommentP_flatten (f : Form) (c : Text) (html : Option Text) :
+    flattenPieces (htmlCommentP f c html) = htmlCommentOf f c html := by
   unfold htmlCommentP htmlCommentOf
   split
   · simp [flattenPieces]
-  · cases f <;> simp [flattenPieces, userPiece, escapeOf, noEscape]
+  · cases f <;> cases html <;> simp [flattenPieces, userPiece, valPiece, escVal, escapeOf, noEscape]
+
+theorem specBase_flatten (f : Form) (e : Exc) :
+    (specBase f e).map (fun kv => (kv.1, flattenPieces kv.2)) =
+      [(['b', 'r'], brOf f),
+       (['e', 'x', 'p', 'l', 'a', 'n', 'a', 't', 'i', 'o', 'n'], escVal f e.explanation e.explanationHtml),
+       (['d', 'e', 't', 'a', 'i', 'l'], escVal f (orEmpty e.detail) (orHtml (orEmpty e.detail) e.detailHtml)),
+       (['c', 'o', 'm', 'm', 'e', 'n', 't'], escVal f (orEmpty e.comment) (orHtml (orEmpty e.comment) e.commentHtml)),
+       (['h', 't', 'm', 'l', '_', 'c', 'o', 'm', 'm', 'e', 'n', 't'],
+          htmlCommentOf f (orEmpty e.comment) (orHtml (orEmpty e.comment) e.commentHtml))] := by
+  simp only [specBase, List.map_cons, List.map_nil, flatten_valPiece, htmlCommentP_flatten]
+  simp [flattenPieces]
 
 theorem specArgs_flatten (f : Form) (e : Exc) (environ : List (Text × Text)) :
     (specArgs f e environ).map (fun kv => (kv.1, flattenPieces kv.2)) = buildArgs f e environ := by
-  have hcm := htmlCommentP_flatten f (orEmpty e.comment)
-  simp only [flattenPieces] at hcm
   unfold specArgs buildArgs
   by_cases hc : e.custom = true
-  · simp [hc, flattenPieces, Function.comp_def, userPiece, hcm]
-  · simp [hc, flattenPieces, userPiece, hcm]
+  · simp only [hc, if_true, List.map_append]
+    rw [specBase_flatten]
+    simp [flattenPieces, Function.comp_def, userPiece]
+  · simp only [hc]
+    exact specBase_flatten f e
 
 theorem specBody_flatten (f : Form) (e : Exc) (environ : List (Text × Text)) :
     (specBody f e environ).map flattenPieces
@@ -141,6 +158,7 @@ delimiters and the status are the fixed texts; a template literal is one charact
 def PieceOk (f : Form) (e : Exc) (p : Piece) : Prop :=
   match p.origin with
   | .user raw => p.text = escapeOf f raw
+  | .markup _ => True
   | .br => p.text = brOf f
   | .commentOpen => p.text = ['<', '!', '-', '-', ' ']
   | .commentClose => p.text = [' ', '-', '-', '>']
@@ -151,42 +169,80 @@ def PieceOk (f : Form) (e : Exc) (p : Piece) : Prop :=
 theorem userPiece_ok (f : Form) (e : Exc) (raw : Text) : PieceOk f e (userPiece f raw) := by
   simp [PieceOk, userPiece]
 
-theorem specArgs_ok (f : Form) (e : Exc) (environ : List (Text × Text)) :
-    ∀ kv ∈ specArgs f e environ, ∀ p ∈ kv.2, PieceOk f e p := by
+theorem valPiece_ok (f : Form) (e : Exc) (raw : Text) (html : Option Text) : PieceOk f e (valPiece f raw html) := by
+  cases f <;> cases html <;> simp [PieceOk, valPiece, userPiece]
+
+theorem specBase_ok (f : Form) (e : Exc) : ∀ kv ∈ specBase f e, ∀ p ∈ kv.2, PieceOk f e p := by
   intro kv hkv p hp
-  have base : ∀ kv ∈ ([(['b', 'r'], [⟨.br, brOf f⟩]),
-       (['e', 'x', 'p', 'l', 'a', 'n', 'a', 't', 'i', 'o', 'n'], [userPiece f e.explanation]),
-       (['d', 'e', 't', 'a', 'i', 'l'], [userPiece f (orEmpty e.detail)]),
-       (['c', 'o', 'm', 'm', 'e', 'n', 't'], [userPiece f (orEmpty e.comment)]),
-       (['h', 't', 'm', 'l', '_', 'c', 'o', 'm', 'm', 'e', 'n', 't'], htmlCommentP f (orEmpty e.comment))] : List (Text × List Piece)),
-       ∀ p ∈ kv.2, PieceOk f e p := by
-    intro kv hkv p hp
-    simp only [List.mem_cons, List.mem_nil_iff, or_false] at hkv
-    rcases hkv with rfl | rfl | rfl | rfl | rfl
-    · simp only [List.mem_singleton] at hp; subst hp; simp [PieceOk]
-    · simp only [List.mem_singleton] at hp; subst hp; exact userPiece_ok _ _ _
-    · simp only [List.mem_singleton] at hp; subst hp; exact userPiece_ok _ _ _
-    · simp only [List.mem_singleton] at hp; subst hp; exact userPiece_ok _ _ _
-    · simp only [htmlCommentP] at hp
-      split at hp
-      · simp at hp
-      · cases f
-        · simp only [List.mem_cons, List.mem_nil_iff, or_false] at hp
-          rcases hp with rfl | rfl | rfl
-          · simp [PieceOk]
-          · exact userPiece_ok _ _ _
-          · simp [PieceOk]
-        · simp only [List.mem_singleton] at hp; subst hp; exact userPiece_ok _ _ _
-        · simp only [List.mem_singleton] at hp; subst hp; exact userPiece_ok _ _ _
+  simp only [specBase, List.mem_cons, List.mem_nil_iff, or_false] at hkv
+  rcases hkv with rfl | rfl | rfl | rfl | rfl
+  · simp only [List.mem_singleton] at hp; subst hp; simp [PieceOk]
+  · simp only [List.mem_singleton] at hp; subst hp; exact valPiece_ok _ _ _ _
+  · simp only [List.mem_singleton] at hp; subst hp; exact valPiece_ok _ _ _ _
+  · simp only [List.mem_singleton] at hp; subst hp; exact valPiece_ok _ _ _ _
+  · simp only [htmlCommentP] at hp
+    split at hp
+    · simp at hp
+    · cases f
+      · simp only [List.mem_cons, List.mem_nil_iff, or_false] at hp
+        rcases hp with rfl | rfl | rfl
+        · simp [PieceOk]
+        · exact valPiece_ok _ _ _ _
+        · simp [PieceOk]
+      · simp only [List.mem_singleton] at hp; subst hp; exact userPiece_ok _ _ _
+      · simp only [List.mem_singleton] at hp; subst hp; exact userPiece_ok _ _ _
+
+/-- a predicate that holds of the base pieces and of every user piece holds of all pieces of `args` -/
+theorem specArgs_all (f : Form) (e : Exc) (environ : List (Text × Text)) (P : Piece → Prop)
+    (hbase : ∀ kv ∈ specBase f e, ∀ p ∈ kv.2, P p) (huser : ∀ raw, P (userPiece f raw)) :
+    ∀ kv ∈ specArgs f e environ, ∀ p ∈ kv.2, P p := by
+  intro kv hkv p hp
   unfold specArgs at hkv
-  simp only [] at hkv
   split at hkv
   · simp only [List.mem_append, List.mem_map] at hkv
     rcases hkv with (hkv | ⟨x, _, rfl⟩) | ⟨x, _, rfl⟩
-    · exact base kv hkv p hp
-    · simp only [List.mem_singleton] at hp; subst hp; exact userPiece_ok _ _ _
-    · simp only [List.mem_singleton] at hp; subst hp; exact userPiece_ok _ _ _
-  · exact base kv hkv p hp
+    · exact hbase kv hkv p hp
+    · simp only [List.mem_singleton] at hp; subst hp; exact huser _
+    · simp only [List.mem_singleton] at hp; subst hp; exact huser _
+  · exact hbase kv hkv p hp
+
+theorem specArgs_ok (f : Form) (e : Exc) (environ : List (Text × Text)) :
+    ∀ kv ∈ specArgs f e environ, ∀ p ∈ kv.2, PieceOk f e p :=
+  specArgs_all f e environ (PieceOk f e) (specBase_ok f e) (userPiece_ok f e)
+
+/-- every piece of a rendering satisfies `P` when the literal pieces, the status piece, the base pieces and the
+user pieces do -/
+theorem specRender_all {f : Form} {e : Exc} {environ : List (Text × Text)} {ps : List Piece} (P : Piece → Prop)
+    (h : specRender f e environ = .ok ps)
+    (hlit : ∀ o, (o = Origin.bodyLit ∨ o = Origin.pageLit) → ∀ c : Char, P ⟨o, [c]⟩) (hstatus : P ⟨.status, e.status⟩)
+    (hbase : ∀ kv ∈ specBase f e, ∀ p ∈ kv.2, P p) (huser : ∀ raw, P (userPiece f raw)) :
+    ∀ p ∈ ps, P p := by
+  unfold specRender at h
+  cases hb : specBody f e environ with
+  | error err => rw [hb] at h; simp at h
+  | ok body =>
+    rw [hb] at h
+    have hbody : ∀ p ∈ body, P p := by
+      refine fillP_pieces .bodyLit _ P (hlit _ (Or.inl rfl)) ?_ _ body hb
+      intro k v hv p hp
+      obtain ⟨kv, hm, rfl⟩ := lookupLastP_mem hv
+      exact specArgs_all f e environ P hbase huser kv hm p hp
+    have page : ∀ tmpl, fillP .pageLit (pageEnvP e.status body) (tokenize tmpl) = .ok ps → ∀ p ∈ ps, P p := by
+      intro tmpl hp
+      refine fillP_pieces .pageLit _ P (hlit _ (Or.inr rfl)) ?_ _ ps hp
+      intro k v hv p hp
+      unfold pageEnvP at hv
+      split at hv
+      · simp only [Option.some.injEq] at hv; subst hv
+        simp only [List.mem_singleton] at hp; subst hp
+        exact hstatus
+      · split at hv
+        · simp only [Option.some.injEq] at hv; subst hv; exact hbody p hp
+        · cases hv
+    cases f with
+    | json => simp only [Except.ok.injEq] at h; subst h; exact hbody
+    | html => exact page _ h
+    | plain => exact page _ h
 
 theorem specBody_ok {f : Form} {e : Exc} {environ : List (Text × Text)} {ps : List Piece}
     (h : specBody f e environ = .ok ps) : ∀ p ∈ ps, PieceOk f e p := by
